@@ -839,6 +839,10 @@ func (x *Exec) checkCalls(rec *StepRecord, pi int, g *proto.GenScript, o genOutc
 		if c > 1 {
 			x.violate("C06", "G1", "type-generated-twice", fmt.Sprintf("%s: %s.%s x%d", g.Name, ip, n, c), nil)
 		}
+		if ExcludedTypeNames[n] {
+			x.violate("C06", "G3", "type-of-excluded-file-generated", fmt.Sprintf("%s: %s.%s (declared only in a file that is not part of the package as built)", g.Name, ip, n), nil)
+			continue
+		}
 		if !inSpec[n] {
 			continue // declared by a generated file that an earlier run left in the package: not a type the spec knows
 		}
